@@ -14,6 +14,7 @@ equals what was written: same ids, equal objects, same order; nothing invented a
 import asyncio
 import hashlib
 import random
+import vloop
 
 import mpservice.socket as S
 
@@ -252,6 +253,48 @@ async def _read_all(chunks, lim, timeout, captured):
     return got, end
 
 
+async def _read_polling(chunks, gaps, lim, captured):
+    """The stream arrives slowly (virtual time: `gaps[k]` seconds before chunk k) and is read the way both
+    callers in socket.py read it: `read_record(reader, timeout=0.1)`, `TimeoutError` = nothing yet, poll again."""
+    reader = asyncio.StreamReader(limit=lim)
+
+    async def feeder():
+        for ch, g in zip(chunks, gaps):
+            if g:
+                await asyncio.sleep(g)
+            reader.feed_data(ch)
+            await asyncio.sleep(0)
+        reader.feed_eof()
+
+    ft = asyncio.create_task(feeder())
+    got = []
+    polls = 0
+    try:
+        while True:
+            n0 = len(captured)
+            try:
+                rid, obj = await S.read_record(reader, timeout=0.1)
+            except asyncio.TimeoutError:
+                polls += 1
+                if polls > 10000:
+                    end = 'polls-forever'
+                    break
+                continue
+            raw, enc = captured[n0] if len(captured) > n0 else (None, None)
+            got.append((rid, enc, raw, obj))
+    except asyncio.IncompleteReadError as e:
+        end = 'eof' if (e.expected is None and e.partial == b'') else 'incomplete'
+    except asyncio.LimitOverrunError:
+        end = 'overrun'
+    except (ValueError, AssertionError):
+        end = 'bad'
+    except Exception as e:
+        end = 'exc-' + type(e).__name__
+    finally:
+        ft.cancel()
+    return got, end, polls
+
+
 def _hex(b):
     return b.hex() if b else '-'
 
@@ -307,6 +350,13 @@ def run_case(case):
                 results.append(await _read_all(chunks, case['lim'], case['timeout'], captured))
 
         asyncio.run(read_variants())
+        # slow arrival under the virtual clock (E2): the records read must not depend on WHEN the bytes come
+        slow = []
+        for chunks in chunkings(feed, rng, 2, edges)[-2:]:
+            gaps = [rng.choice([0, 0, 0.03, 0.12, 0.12, 0.5]) for _ in chunks]
+            del captured[:]
+            v, exc, _st = vloop.run(lambda: _read_polling(chunks, gaps, case['lim'], captured))
+            slow.append((v, exc, gaps))
     finally:
         S.encode = _orig_encode
         S.decode = _orig_decode
@@ -320,6 +370,17 @@ def run_case(case):
         if e != end0 or [(x[0], x[1], x[2]) for x in g] != canon:
             mon.append(dict(prop='C18', rule='chunking-dependent',
                             detail=f'chunking #{k} read {len(g)} records ending {e}; unchunked read {len(got0)} ending {end0}'))
+            break
+    for v, exc, gaps in slow:
+        if exc is not None:
+            mon.append(dict(prop='C18', rule='arrival-timing-dependent',
+                            detail=f'polling read of a slowly arriving stream ended with {exc!r}; gaps {gaps[:12]}'))
+            break
+        g, e, polls = v
+        if e != end0 or [(x[0], x[1], x[2]) for x in g] != canon:
+            mon.append(dict(prop='C18', rule='arrival-timing-dependent',
+                            detail=f'the same bytes arriving with gaps {gaps[:12]} (s) between chunks and read by polling '
+                                   f'`read_record(timeout=0.1)` gave {len(g)} records ending {e}; read at once: {len(got0)} ending {end0}'))
             break
     # C18 evaluated directly: what is read back is what was written, in order
     expect = [(r['rid'], o) for r, o in zip(case['recs'], objs)]
@@ -337,7 +398,8 @@ def run_case(case):
                             detail=f'read records are not a prefix of the written ones: first difference at {_first_diff(have[:k], expect)}'))
         if case['mode'] == 'trunc' and len(have) > len(expect):
             mon.append(dict(prop='C18', rule='frame-phantom', detail=f'{len(have)} records read from a cut stream of {len(expect)}'))
-    res = dict(monitors=mon, end=end0, nread=len(got0), nchunkings=len(results), wire_len=len(wire),
+    res = dict(monitors=mon, end=end0, nread=len(got0), nchunkings=len(results), slow_reads=len(slow),
+               slow_polls=sum(v[2] for v, exc, _ in slow if exc is None), wire_len=len(wire),
                exhaustive_chunkings=(1 < len(feed) <= EXHAUSTIVE_MAX), feed_len=len(feed),
                events=[hashlib.sha1(feed).hexdigest(), end0, len(got0)])
     # material for the model comparison (kept compact: hex strings)
